@@ -309,8 +309,8 @@ func (ss *selState) unregister() {
 }
 
 func (ss *selState) decide() {
-	s, t := sched, ss.t
-	s.yield(t)
+	t := ss.t
+	sched.yield(t)
 	t.G.ev(15<<40, uint64(len(ss.cases)))
 	for {
 		var ready []int
@@ -323,13 +323,13 @@ func (ss *selState) decide() {
 			pickI := 0
 			if len(ready) > 1 {
 				SelStats.MultiReady++
-				pickI = s.choose(len(ready))
+				pickI = sched.choose(len(ready))
 			}
 			SelStats.Choices++
 			ss.chosen = ready[pickI]
 			t.G.ev(15<<40|1, uint64(ss.chosen))
 			ss.cases[ss.chosen].commit()
-			s.wakeAll()
+			sched.wakeAll()
 			return
 		}
 		if ss.hasDef {
@@ -342,12 +342,12 @@ func (ss *selState) decide() {
 				c.st.selq = append(c.st.selq, &selWaiter{ss: ss, idx: i})
 			}
 		}
-		s.blockOnce(t)
+		sched.blockOnce(t)
 		if ss.claimed >= 0 {
 			c := ss.cases[ss.claimed]
 			if !c.send {
 				// a sender chose this receive: its value arrives with its forward step
-				s.block(t, func() bool { return ss.hasVal })
+				sched.block(t, func() bool { return ss.hasVal })
 			} else {
 				c.room() // room for the real select's send; the claiming receiver waits for the forward step
 			}
